@@ -12,7 +12,7 @@ PROPS = {
     "C01": {
         "harness": [{"name": "c01"}],
         "n_quick": 240, "n_thorough": 6000,
-        "known_for": ["C01"],
+        "known_for": ["C01", "C15"],
         "scope_guards": ["C01_transparency composition theorem not yet proved for any fragment of the language; proved for every input: plan_sub (no field invented); refuted: 5 witnesses"],
         "assumptions": ["downstream services are spec-conformant executors over their own schema (simulators, checked against Gql/RefExec.v per request)",
                         "gqlparser's validation of client queries is taken as given (only validated operations are emitted)"],
@@ -20,8 +20,53 @@ PROPS = {
     "C04": {
         "harness": [{"name": "c01"}],
         "n_quick": 240, "n_thorough": 6000,
-        "known_for": ["C01"],
+        "known_for": ["C01", "C15"],
         "assumptions": ["validity of a received document is judged by gqlparser's validator at the simulator (direct oracle) and by valid_doc in the model"],
+    },
+    "C02": {
+        "harness": [{"name": "c02"}],
+        "n_quick": 240, "n_thorough": 6000, "known_for": ["C01", "C15"],
+        "assumptions": ["downstream services are spec-conformant executors over their own schema (simulators, checked against Gql/RefExec.v per request)",
+                        "gqlparser's validation of client queries is taken as given (only validated operations are emitted)"],
+        "partial": "panic recovery at the HTTP layer is gqlgen's; real timeouts are simulated by a transport returning a net.Error with Timeout()=true",
+    },
+    "C03": {
+        "harness": [{"name": "c03"}],
+        "n_quick": 240, "n_thorough": 6000, "known_for": ["C01", "C15"],
+        "assumptions": ["downstream services are spec-conformant executors over their own schema (simulators, checked against Gql/RefExec.v per request)",
+                        "gqlparser's validation of client queries is taken as given (only validated operations are emitted)"],
+    },
+    "C05": {
+        "harness": [{"name": "c05"}],
+        "n_quick": 240, "n_thorough": 6000, "known_for": ["C01", "C15"],
+        "assumptions": ["downstream services are spec-conformant executors over their own schema (simulators, checked against Gql/RefExec.v per request)",
+                        "gqlparser's validation of client queries is taken as given (only validated operations are emitted)"],
+    },
+    "C15": {
+        "harness": [{"name": "c15"}],
+        "n_quick": 240, "n_thorough": 6000, "known_for": ["C01", "C15"],
+        "assumptions": ["downstream services are spec-conformant executors over their own schema (simulators, checked against Gql/RefExec.v per request)",
+                        "gqlparser's validation of client queries is taken as given (only validated operations are emitted)"],
+    },
+    "C16": {
+        "harness": [{"name": "c16"}],
+        "n_quick": 240, "n_thorough": 6000, "known_for": ["C01", "C15"],
+        "assumptions": ["downstream services are spec-conformant executors over their own schema (simulators, checked against Gql/RefExec.v per request)",
+                        "gqlparser's validation of client queries is taken as given (only validated operations are emitted)"] + ["the simulators count a mutation's side effects when (and only when) the request is executed"],
+    },
+    "C06": {
+        "harness": [{"name": "c06"}],
+        "n_quick": 70, "n_thorough": 1500, "known_for": ["C01", "C15"],
+        "assumptions": ["downstream services are spec-conformant executors over their own schema (simulators, checked against Gql/RefExec.v per request)",
+                        "gqlparser's validation of client queries is taken as given (only validated operations are emitted)"] + ["the Go scheduler between 'response read' and 'result sent' is not controlled by the harness; the transition system covers those interleavings"],
+        "partial": "only response-completion order is forced (gating transport with a settle window); the merge-commutation lemma (any causally ordered list merges to the same tree) is not yet a theorem",
+    },
+    "C13": {
+        "harness": [{"name": "c13"}],
+        "n_quick": 150, "n_thorough": 3000, "known_for": ["C01", "C15"],
+        "assumptions": ["downstream services are spec-conformant executors over their own schema (simulators, checked against Gql/RefExec.v per request)",
+                        "gqlparser's validation of client queries is taken as given (only validated operations are emitted)"] + ["goroutines are identified by a github.com/movio/bramble frame on their stack; net/http connection and body lifetimes are not observed"],
+        "partial": "termination of the transition system is not yet proved (released/limit are); client cancellation is exercised by the harness only",
     },
 }
 
@@ -42,6 +87,41 @@ META = {
         "text": "Theorems C04_only_client_fields (every field of every step at any depth is a client field or helper-aliased plumbing; all schemas, tables, selections) and C04_refuted_shared_remote_abstract (validity against the receiving schema is false on a published federation; known finding). Tie: every downstream document observed from the real gateway is validated with gqlparser against the receiving service's own schema, operation type and keyword are checked, ids are checked duplicate-free, and the multiset of requests must equal the model's.",
         "note": "valid_doc is my subset of GraphQL validation (field existence, leaf/composite shape, fragment conditions); the simulator's verdict comes from gqlparser itself. Ownership (plan_owned) not yet a theorem.",
         "technique": "Coq stage theorem + refutation witness; correspondence of request multisets; gqlparser validation at the simulators",
+    },
+    "C02": {
+        "text": "Model of result merging, null propagation (as repaired by fix commits 17e5b21, 694d7a8, c3464ca) and the response writer (Model/MergeRes.v, Shape.v) inside the gateway model; proved for all inputs so far: step failures always become error entries naming the service, and the planner fabricates no field. Tie + direct oracle on every run: random queries under injected faults (status, transport, timeout, oversize, bad JSON, errors with null/partial data, on single requests, lookup types, whole services, everything at once) and non-conforming data; the response must be reproduced exactly by the model, and a schema- and query-directed validator written from the GraphQL spec (valid_obj: exactly the requested keys, once, in order; no helper keys; no null at a non-null position) must accept the observed data.",
+        "note": "S-bubble (no non-null null for every input) is not yet a theorem; it is decided per case by valid_obj on observed data and by the correspondence with the model. Known findings of the response shaper (duplicate keys, emptied selections) are attributed by their guards.",
+        "technique": "Coq model + invariant proofs on the execution skeleton; differential correspondence under fault injection; spec-derived response validator evaluated in Coq on observed responses",
+    },
+    "C03": {
+        "text": "Theorems C03_filter_sound (every field surviving filterFields lies on an allowed path; all trees, all selections), C03_walk_is_spec (the walk equals the documented allows relation) and plan_sub (nothing but surviving fields is requested downstream). Tie + oracles: random permission trees (allow-all, list, nested, documented empty-leaf forms, abstract types) x random queries through the real gateway; the model must reproduce requests/response/errors; the observed response must be valid for the independently filtered query, every (type, field) requested downstream must occur in the filtered query (or be id/__typename plumbing), the number of 'access disallowed' errors must equal the number of removed fields, and the data must equal the reference executor on the filtered query.",
+        "note": "FilterSchema is taken from the real code (the filtered schema is an input of the model); its agreement with filterFields is C18/C17 territory. Completeness of the filter (allowed implies kept) not yet a theorem.",
+        "technique": "Coq stage theorems (structural induction over selection and permission trees) + differential correspondence + independent spec filter as oracle",
+    },
+    "C05": {
+        "text": "Theorems C05_named_root / C05_named_lookup (every recorded step failure names its service; invariant over the execution skeleton for all plans, worlds, fault assignments). Tie + oracles: every faulty run is paired with the fault-free run of the same request: the faulty data must be the fault-free data with subtrees replaced by null, a difference must be accompanied by an error, every service-failure error must carry the service identity, and when every request to a service fails hard the data must equal the reference executor with that service's fields raising errors.",
+        "note": "Containment of the nulled positions to fields owned by the failing service is decided through the whole-service oracle and the model correspondence, not by a separate theorem yet.",
+        "technique": "Coq invariant proof + paired fault-free/faulty differential runs + reference executor with failing owners",
+    },
+    "C15": {
+        "text": "Theorems C15_node_kept_iff_enabled (a node is kept iff no true @skip and no false @include; kept nodes are unchanged except for the two directives), C15_directives_stripped (no such directive remains at any depth) and C15_not_requested (plan_sub). Tie + oracles: random placements and conditions (literal, variable, both on one node, on fragments and spreads) through the real gateway; data must equal the reference executor, which evaluates the directives by the spec; no downstream document may carry a directive; each sub-request must declare and send exactly the variables it uses.",
+        "note": "The 'everything below a field skipped yields {}' clause is false of the code (known finding KF-emptied-selection).",
+        "technique": "Coq stage theorems + differential correspondence + reference executor",
+    },
+    "C16": {
+        "text": "Theorems C16_root_field_once (a root field with an owner is routed to exactly one service, its owner, for every set of distinct services) and C16_no_invented_field. Tie + oracles: random mutation documents (several root fields over several services, namespaced mutations, fragments on Mutation, results extended by other services) with faults on the mutation and on follow-ups; the simulators count side effects: per service the effects must be exactly the client's fields in the client's order (at most once under faults), mutation requests carry operationType=mutation, every other request is a query lookup, no service receives an effect it does not own; model correspondence on requests and response.",
+        "note": "No-retry is argued from the model's exec skeleton visiting each step once and confirmed by effect counts under faults; causality (lookups after the mutation's reply) is by construction of executeRootStep and observed via request order.",
+        "technique": "Coq routing theorem + side-effect counting simulators + differential correspondence",
+    },
+    "C06": {
+        "text": "Theorem C06_results_causally_ordered: in the transition system of Execute (main, collector, one goroutine per step, unbuffered channel, error group, atomic counter) EVERY interleaving yields a results list in which a step's result comes after its spawner's. Tie + direct oracle: under a gating transport each generated request is run under up to 6 (thorough: 24) different causal release orders of its downstream responses, with faults and with a request limit of 1; data bytes and error multisets must be identical across orders; one order per case is checked against the sequential gateway model (which merges in depth-first order — a third order).",
+        "note": "The second half of the argument (any causally ordered list merges to the same tree: commutation of mergeExecutionResultsRec on independent results) is observed, not yet proved.",
+        "technique": "Coq invariant over all interleavings of a transition system + schedule enumeration under a gating transport + model correspondence",
+    },
+    "C13": {
+        "text": "Theorems C13_released (every terminal state of every schedule has main returned, no step goroutine, collector exited — for all plans, outcome oracles, limits), C13_limit (lookup rounds sent <= max in every reachable state) and C13_released_refuted_before_fix (the error path at d802d19 leaked the collector; repaired by fix d3a4cc6). Tie + direct oracles: random queries under limits 0..6 and 50, faults, and client cancellation at a random gate: the request terminates, <= 1 root request per service, lookups <= limit, a limit-exceeded response has no data, and no goroutine with a bramble frame survives; the sequential model reproduces the response including the limit outcome.",
+        "note": "Termination is observed (20 s watchdog), not yet proved; the selection-growth finding (KF-selection-growth) bounds 'bounded work' from below and is recorded.",
+        "technique": "Coq invariants over a transition system (all schedules) + goroutine-stack inspection + request counting under a gating transport",
     },
 }
 
